@@ -18,6 +18,7 @@
 
 #include "LuaHeatflowCommands.h"
 #include "LuaCommonCommands.h"
+#include "LuaElectrostaticsCommands.h"
 
 #include "CHPointVals.h"
 #include "hpproc.h"
@@ -177,6 +178,9 @@ void femmcli::LuaHeatflowCommands::registerCommands(LuaInstance &li)
     li.addFunction("hi_seteditmode", LuaCommonCommands::luaSetEditMode);
     li.addFunction("hi_set_focus", LuaCommonCommands::luaSetFocus);
     li.addFunction("hi_setfocus", LuaCommonCommands::luaSetFocus);
+    // arc segments of heat flow problems carry the same attributes as electrostatic ones
+    li.addFunction("hi_set_arcsegment_prop", LuaElectrostaticsCommands::luaSetArcsegmentProperty);
+    li.addFunction("hi_setarcsegmentprop", LuaElectrostaticsCommands::luaSetArcsegmentProperty);
     li.addFunction("hi_set_grid", LuaInstance::luaNOP);
     li.addFunction("hi_setgrid", LuaInstance::luaNOP);
     li.addFunction("hi_set_group", LuaCommonCommands::luaSetGroup);
